@@ -2,6 +2,7 @@
 from __future__ import annotations
 
 import io
+import os
 import struct
 import wave
 
@@ -10,7 +11,7 @@ from common import Case, Finding, Report, compare_family, hx, run_driver
 
 ASSUMPTIONS = [
     "Lean compiled Float (+,-,*,/,floor,toUInt64) is IEEE-754 binary64 as CPython's float on x86-64; Python's round() is half-to-even",
-    "files are built in memory with WavSampleBuilder.build_stream (export_wav only adds open(path,'wb'))",
+    "files are written by the real export_wav (the function `export` calls per file) into a scratch directory and read back",
 ]
 
 
@@ -72,14 +73,36 @@ def build_real(g, srcs):
         name="x", channel_config=ChannelConfig.MONO, sample_rate=g["rate"], num_channels=g["channels"],
         data_streams=streams, loop_regions=loops, midi_note=note, pitch_offset_semi=g["semi"], pitch_offset_cents=g["cents"],
     )
-    out = io.BytesIO()
+    # through the function `export` calls for every file (S81: it may do more than open + build_stream)
+    from smpl_extract.generalized.wav import export_wav
+
+    path = os.path.join(_scratch_dir(), "x.wav")
     try:
-        WavSampleBuilder.build_stream(s, out)
+        if os.path.exists(path):
+            os.remove(path)
+        export_wav(s, path)
+        with open(path, "rb") as f:
+            data = f.read()
     except Exception as e:
         import impl
 
         return None, "err " + impl.exc_name(e)
-    return out.getvalue(), None
+    return data, None
+
+
+_SCRATCH = []
+
+
+def _scratch_dir():
+    if not _SCRATCH:
+        import atexit
+        import shutil
+        import tempfile
+
+        d = tempfile.mkdtemp(prefix="verif_c04_")
+        _SCRATCH.append(d)
+        atexit.register(lambda: shutil.rmtree(d, ignore_errors=True))
+    return _SCRATCH[0]
 
 
 def op_line(g, srcs) -> str:
